@@ -30,11 +30,14 @@ func (*c09) Assumptions() []string {
 const c09Base = `
 :- dynamic(p/1).
 :- dynamic(q/1).
+:- dynamic(z/0).
 `
 
 var c09Clauses = []string{"p(1)", "p(2)", "p(3)", "p(_)", "p(1)", "(p(X) :- q(X))", "(p(9) :- assertz(p(10)))", "(p(8) :- retract(p(1)))", "q(1)", "q(2)", "p(0)", "(p(7) :- asserta(q(7)))",
 	// one clause with a disjunctive body (stored as one compiled clause per alternative)
-	"(p(X) :- (X = 5 ; X = 6))", "(q(X) :- (X = 3 ; p(4)))"}
+	"(p(X) :- (X = 5 ; X = 6))", "(q(X) :- (X = 3 ; p(4)))",
+	// clauses of arity 0: as terms the facts are all the same atom
+	"z", "z", "(z :- w(zbody))", "(z :- true)"}
 
 type c09Gen struct {
 	r   *rand.Rand
@@ -61,13 +64,13 @@ func (g *c09Gen) op() string {
 	case 2, 3:
 		goal = "assertz(" + g.clause() + ")"
 	case 4, 5, 6:
-		goal = "retract(" + g.pick("p(1)", "p(2)", "p(3)", "p(_)", "p(10)", "q(_)", "q(1)", "(p(_) :- q(_))", "(p(_) :- _)", "p(0)", "(p(_) :- (_ ; _))", "(q(_) :- _)") + ")"
+		goal = "retract(" + g.pick("p(1)", "p(2)", "p(3)", "p(_)", "p(10)", "q(_)", "q(1)", "(p(_) :- q(_))", "(p(_) :- _)", "p(0)", "(p(_) :- (_ ; _))", "(q(_) :- _)", "z", "z", "(z :- _)") + ")"
 	case 7:
-		goal = "retractall(" + g.pick("p(_)", "p(1)", "q(_)", "p(2)") + ")"
+		goal = "retractall(" + g.pick("p(_)", "p(1)", "q(_)", "p(2)", "z") + ")"
 	case 8:
 		goal = "abolish(" + g.pick("p/1", "q/1") + ")"
 	default:
-		goal = "asserta(" + g.pick("p(0)", "q(0)") + ")"
+		goal = "asserta(" + g.pick("p(0)", "q(0)", "z") + ")"
 	}
 	return fmt.Sprintf("(catch(%s, error(E%s, _), (w(%s(err(E%s))), fail)) -> w(%s(yes)) ; w(%s(no)))", goal, tag, tag, tag, tag, tag)
 }
@@ -95,6 +98,21 @@ func (g *c09Gen) stmt(depth int) string {
 		}
 		return g.ops(1 + g.r.Intn(2))
 	}
+	if g.r.Intn(8) == 0 {
+		// the same loops over z/0
+		switch g.r.Intn(4) {
+		case 0:
+			return guard(fmt.Sprintf("(z, w(see(z)), %s, fail ; true)", inner()))
+		case 1:
+			b := g.v()
+			return guard(fmt.Sprintf("(clause(z, %s), w(cl(z, %s)), %s, fail ; true)", b, b, inner()))
+		case 2:
+			return guard(fmt.Sprintf("(retract(z), w(gone(z)), %s, fail ; true)", inner()))
+		default:
+			b := g.v()
+			return guard(fmt.Sprintf("(retract((z :- %s)), w(gone(z, %s)), %s, fail ; true)", b, b, inner()))
+		}
+	}
 	switch g.r.Intn(10) {
 	case 0, 1, 2:
 		return g.ops(1 + g.r.Intn(2))
@@ -115,7 +133,7 @@ func (g *c09Gen) history(n int) string {
 	for i := 0; i < n; i++ {
 		ss = append(ss, g.stmt(1))
 	}
-	ss = append(ss, "catch(findall(A-B, clause(p(A), B), LP), error(EP, _), LP = err(EP))", "catch(findall(A-B, clause(q(A), B), LQ), error(EQ, _), LQ = err(EQ))")
+	ss = append(ss, "catch(findall(A-B, clause(p(A), B), LP), error(EP, _), LP = err(EP))", "catch(findall(A-B, clause(q(A), B), LQ), error(EQ, _), LQ = err(EQ))", "catch(findall(B, clause(z, B), LZ), error(EZ, _), LZ = err(EZ))")
 	return strings.Join(ss, ", ")
 }
 
@@ -132,7 +150,8 @@ func (c *c09) Generate(cx *Ctx, chunk int) []*Item {
 		return nil
 	}
 	base := term.MustProgram(c09Base)
-	initial := [][]string{{"p(1)", "p(2)", "p(3)"}, {"p(1)", "p(_)", "p(1)", "(p(X) :- q(X))", "q(1)", "q(2)"}, {}, {"p(2)", "(p(9) :- assertz(p(10)))", "(p(8) :- retract(p(1)))", "p(1)"}, {"q(1)", "(p(X) :- q(X))", "p(3)", "(p(7) :- asserta(q(7)))"}}
+	initial := [][]string{{"p(1)", "p(2)", "p(3)"}, {"p(1)", "p(_)", "p(1)", "(p(X) :- q(X))", "q(1)", "q(2)"}, {}, {"p(2)", "(p(9) :- assertz(p(10)))", "(p(8) :- retract(p(1)))", "p(1)"}, {"q(1)", "(p(X) :- q(X))", "p(3)", "(p(7) :- asserta(q(7)))"},
+		{"z", "(z :- w(zbody))", "z", "p(1)"}}
 	var metas []*DiffMeta
 	add := func(init []string, q string, family string, viaAssert bool) {
 		prog := append([]*term.Term{}, base...)
@@ -144,7 +163,7 @@ func (c *c09) Generate(cx *Ctx, chunk int) []*Item {
 		_, names, _ := term.ParseTerm(q)
 		var qv []int64
 		for i, n := range names {
-			if n == "LP" || n == "LQ" {
+			if n == "LP" || n == "LQ" || n == "LZ" {
 				qv = append(qv, int64(i))
 			}
 		}
@@ -165,8 +184,11 @@ func (c *c09) Generate(cx *Ctx, chunk int) []*Item {
 		"(clause(p(X), B), w(X-B), retract(p(X)), fail ; true)",
 		"asserta(p(a)), assertz(p(z)), retract(p(1)), retract(p(1))",
 		"(retract(p(1)), w(r1), fail ; true), (retract(p(_)), w(r2), fail ; true)",
+		"(retract(z), w(rz), asserta(z), fail ; true)",
+		"(retract((z :- B)), w(rz(B)), asserta(z), assertz(z), fail ; true)",
+		"(z, w(sz), retract(z), asserta(z), fail ; true)",
 	}
-	tail := ", catch(findall(A-B, clause(p(A), B), LP), error(EP, _), LP = err(EP)), catch(findall(A-B, clause(q(A), B), LQ), error(EQ, _), LQ = err(EQ))"
+	tail := ", catch(findall(A-B, clause(p(A), B), LP), error(EP, _), LP = err(EP)), catch(findall(A-B, clause(q(A), B), LQ), error(EQ, _), LQ = err(EQ)), catch(findall(B, clause(z, B), LZ), error(EZ, _), LZ = err(EZ))"
 	for i, q := range fixed {
 		for j, init := range initial {
 			add(init, q+tail, "fixed", (i+j)%3 == 0)
